@@ -198,329 +198,384 @@ theorem side_of_codec (t : HType) (hc : Codec t) (x : Value) (ht : HasType t x) 
 theorem lookupBit_pack (fl : List Bool) (j : Nat) (hj : j < fl.length) : lookupBit (packBits fl) j = fl[j] := by
   rw [lookupBit_packBits]; simp [hj]
 
-mutual
-theorem codec : (t : HType) → Codec t
-  | .void => fun v hna ht hok => by cases v <;> ill_typed ht hna
-  | .rngState => fun v hna ht hok => by cases v <;> ill_typed ht hna
-  | .stream _ => fun v hna ht hok => by cases v <;> ill_typed ht hna
-  | .int32 => fun v hna ht hok => by
-    cases v <;> ill_typed ht hna
-    rename_i i
-    have hr : -2147483648 ≤ i ∧ i < 2147483648 := by simpa [HasType] using ht
-    obtain ⟨bs, h1, _, _⟩ := readInt32_write i hr []
-    refine ⟨bs, by simp only [encode]; exact h1, fun rest => ?_⟩
-    obtain ⟨bs', h1', _, h3'⟩ := readInt32_write i hr rest
-    rw [h1] at h1'; cases h1'
-    simp only [decode, h3', fOrder]; rfl
-  | .int64 => fun v hna ht hok => by
-    cases v <;> ill_typed ht hna
-    rename_i i
-    have hr : -9223372036854775808 ≤ i ∧ i < 9223372036854775808 := by simpa [HasType] using ht
-    obtain ⟨bs, h1, _, _⟩ := readInt64_write i hr []
-    refine ⟨bs, by simp only [encode]; exact h1, fun rest => ?_⟩
-    obtain ⟨bs', h1', _, h3'⟩ := readInt64_write i hr rest
-    rw [h1] at h1'; cases h1'
-    simp only [decode, h3', fOrder]; rfl
-  | .float32 => fun v hna ht hok => by
-    cases v <;> ill_typed ht hna
-    rename_i f
-    exact ⟨_, rfl, fun rest => by simp only [decode, readFloat32_write f (by simpa [HasType] using ht), fOrder]; rfl⟩
-  | .float64 => fun v hna ht hok => by
-    cases v <;> ill_typed ht hna
-    rename_i f
-    exact ⟨_, rfl, fun rest => by simp only [decode, readFloat64_write f (by simpa [HasType] using ht), fOrder]; rfl⟩
-  | .bool => fun v hna ht hok => by
-    cases v <;> ill_typed ht hna
-    rename_i b
-    exact ⟨_, rfl, fun rest => by cases b <;> simp only [decode, readBool, fOrder] <;> rfl⟩
-  | .str => fun v hna ht hok => by
-    cases v <;> ill_typed ht hna
-    rename_i s
-    have hs : ScalarStr s := by simpa [HasType] using ht
-    have hl : 4 * s.length < 2147483648 := by simpa [EncOK] using hok
-    obtain ⟨bs, h1, _⟩ := readStr_write s hs hl []
-    refine ⟨bs, by simp only [encode]; exact h1, fun rest => ?_⟩
-    obtain ⟨bs', h1', h3'⟩ := readStr_write s hs hl rest
-    rw [h1] at h1'; cases h1'
-    simp only [decode, h3', fOrder]; rfl
-  | .call => fun v hna ht hok => by
-    cases v <;> ill_typed ht hna
-    rename_i alleles phased
-    have hin : CallPack.InRange ⟨alleles, phased⟩ := by simpa [EncOK] using hok
-    obtain ⟨bs, h1, _⟩ := call_roundtrip alleles phased hin []
-    refine ⟨bs, by simp only [encode]; exact h1, fun rest => ?_⟩
-    obtain ⟨bs', h1', h3'⟩ := call_roundtrip alleles phased hin rest
-    rw [h1] at h1'; cases h1'
-    simp only [decode, fOrder]
-    exact h3'
-  | .locus rg => fun v hna ht hok => by
-    cases v <;> ill_typed ht hna
-    rename_i contig pos
-    have ht' : ScalarStr contig ∧ -2147483648 ≤ pos ∧ pos < 2147483648 := by simpa [HasType] using ht
-    have hl : 4 * contig.length < 2147483648 := by simpa [EncOK] using hok
-    obtain ⟨a, ha, _⟩ := readStr_write contig ht'.1 hl []
-    obtain ⟨b, hb, _, _⟩ := readInt32_write pos ht'.2 []
-    refine ⟨0 :: (a ++ b), by simp only [encode, encLocus, ha, hb], fun rest => ?_⟩
-    obtain ⟨a', ha', hra⟩ := readStr_write contig ht'.1 hl (b ++ rest)
-    rw [ha] at ha'; cases ha'
-    obtain ⟨b', hb', _, hrb⟩ := readInt32_write pos ht'.2 rest
-    rw [hb] at hb'; cases hb'
-    have l0 : lookupBit 0 0 = false := by decide
-    have l1 : lookupBit 0 1 = false := by decide
-    simp only [decode, List.cons_append, l0, l1, List.append_assoc, hra, hrb, fOrder, Bool.false_eq_true, if_false, Option.map_some]
-  | .interval t => fun v hna ht hok => by
-    cases v <;> ill_typed ht hna
-    rename_i s e is ie
-    have hc := codec t
-    have ht' : HasType t s ∧ HasType t e := by simpa [HasType] using ht
-    have hok' : EncOK t s ∧ EncOK t e := by simpa [EncOK] using hok
-    obtain ⟨body, hb1, hb2⟩ := flagged_of_codec t hc [s, e] (by
-      intro y hy; simp only [List.mem_cons, List.mem_nil_iff, or_false] at hy
-      rcases hy with rfl | rfl
-      · exact ⟨ht'.1, hok'.1⟩
-      · exact ⟨ht'.2, hok'.2⟩)
-    -- the two encodings, as the encoder computes them
-    cases hs : naOrEmpty s (encode t) with
-    | none => simp [concatOpt, hs] at hb1
-    | some a =>
-      cases he : naOrEmpty e (encode t) with
-      | none => simp [concatOpt, hs, he] at hb1
-      | some b =>
-        have hbody : body = a ++ b := by
-          simp only [List.map_cons, List.map_nil, hs, he, concatOpt, Option.map_some, List.append_nil] at hb1
-          cases hb1; rfl
-        refine ⟨missingOf [s, e, .bool is, .bool ie] ++ a ++ b ++ [if is then 1 else 0] ++ [if ie then 1 else 0], by
-          show encInterval (encode t) s e is ie = _
-          unfold encInterval; rw [hs, he], fun rest => ?_⟩
-        have hmb : ∀ j (hj : j < [s, e].length),
-            missingAt [packBits [isNa s, isNa e, false, false]] (0 + j) = some (isNa [s, e][j]) := by
-          intro j hj
-          have hj' : j < 2 := by simpa using hj
-          have h8 : j / 8 = 0 := by omega
-          have hm : j % 8 = j := by omega
-          simp only [missingAt, Nat.zero_add, h8, hm, List.getElem?_cons_zero, Option.map_some]
-          rw [lookupBit_pack _ j (by simp; omega)]
-          match j, hj' with
-          | 0, _ => rfl
-          | 1, _ => rfl
-        have := hb2 [packBits [isNa s, isNa e, false, false]] 0
-          ([if is then 1 else 0] ++ [if ie then 1 else 0] ++ rest) hmb
-        have l2 : lookupBit (packBits [isNa s, isNa e, false, false]) 2 = false := by
-          rw [lookupBit_pack _ 2 (by simp)]; rfl
-        have l3 : lookupBit (packBits [isNa s, isNa e, false, false]) 3 = false := by
-          rw [lookupBit_pack _ 3 (by simp)]; rfl
-        have hmo : missingOf [s, e, Value.bool is, Value.bool ie] = [packBits [isNa s, isNa e, false, false]] := by
-          rw [missingOf_four]; rfl
-        rw [hmo]
-        simp only [List.cons_append, List.nil_append, List.append_assoc, decode]
-        rw [hbody] at this
-        simp only [List.length_cons, List.length_nil, List.append_assoc, List.cons_append, List.nil_append] at this
-        rw [this]
-        cases is <;> cases ie <;> simp [fOrderList, l2, l3, readBool, fOrder]
-  | .array t => fun v hna ht hok => by
-    cases v <;> ill_typed ht hna
-    rename_i xs
-    have ht' : ∀ x ∈ xs, HasType t x := by simpa [HasType] using ht
-    have hok' : xs.length < 2147483648 ∧ ∀ x ∈ xs, EncOK t x := by simpa [EncOK] using hok
-    obtain ⟨body, hb1, hb2⟩ := flagged_of_codec t (codec t) xs (fun y hy => ⟨ht' y hy, hok'.2 y hy⟩)
-    obtain ⟨l, hl1, _, _⟩ := readInt32_write (xs.length : Int) (by omega) []
-    refine ⟨l ++ missingOf xs ++ body, by
-      show encSeq (encode t) xs = _
-      unfold encSeq; rw [hl1, hb1], fun rest => ?_⟩
-    obtain ⟨l', hl1', _, hl3⟩ := readInt32_write (xs.length : Int) (by omega) (missingOf xs ++ (body ++ rest))
-    rw [hl1] at hl1'; cases hl1'
-    have hn : ¬ ((xs.length : Int) < 0) := by omega
-    simp only [decode, List.append_assoc, hl3, hn, if_false, Int.toNat_natCast]
-    rw [take_append_len _ _ _ (missingOf_length xs), drop_append_len _ _ _ (missingOf_length xs)]
-    rw [hb2 (missingOf xs) 0 rest (fun j hj => by rw [Nat.zero_add]; exact missingAt_missingOf xs j hj)]
-    simp [fOrder]
-  | .set t => fun v hna ht hok => by
-    cases v <;> ill_typed ht hna
-    rename_i xs
-    have ht' : ∀ x ∈ xs, HasType t x := by simpa [HasType] using ht
-    have hok' : xs.length < 2147483648 ∧ ∀ x ∈ xs, EncOK t x := by simpa [EncOK] using hok
-    obtain ⟨body, hb1, hb2⟩ := flagged_of_codec t (codec t) xs (fun y hy => ⟨ht' y hy, hok'.2 y hy⟩)
-    obtain ⟨l, hl1, _, _⟩ := readInt32_write (xs.length : Int) (by omega) []
-    refine ⟨l ++ missingOf xs ++ body, by
-      show encSeq (encode t) xs = _
-      unfold encSeq; rw [hl1, hb1], fun rest => ?_⟩
-    obtain ⟨l', hl1', _, hl3⟩ := readInt32_write (xs.length : Int) (by omega) (missingOf xs ++ (body ++ rest))
-    rw [hl1] at hl1'; cases hl1'
-    have hn : ¬ ((xs.length : Int) < 0) := by omega
-    simp only [decode, List.append_assoc, hl3, hn, if_false, Int.toNat_natCast]
-    rw [take_append_len _ _ _ (missingOf_length xs), drop_append_len _ _ _ (missingOf_length xs)]
-    rw [hb2 (missingOf xs) 0 rest (fun j hj => by rw [Nat.zero_add]; exact missingAt_missingOf xs j hj)]
-    simp [fOrder]
-  | .dict k v => fun x hna ht hok => by
-    cases x <;> ill_typed ht hna
-    rename_i es
-    have hck := codec k
-    have hcv := codec v
-    have ht' : ∀ p ∈ es, HasType k p.1 ∧ HasType v p.2 := by simpa [HasType] using ht
-    have hok' : es.length < 2147483648 ∧ ∀ p ∈ es, EncOK k p.1 ∧ EncOK v p.2 := by simpa [EncOK] using hok
-    -- one entry: a (key, value) struct
-    let rdEntry : Bytes → Option ((Value × Value) × Bytes) := fun bs => match bs with
-      | mb :: r => match (if lookupBit mb 0 then some (Value.na, r) else decode k r) with
-        | some (a, r1) => match (if lookupBit mb 1 then some (Value.na, r1) else decode v r1) with
-          | some (b, r2) => some ((a, b), r2)
-          | none => none
-        | none => none
-      | [] => none
-    have hentry : ∀ p ∈ es, ∃ b, encEntry (encode k) (encode v) p = some b ∧
-        ∀ rest, rdEntry (b ++ rest) = some ((fOrder p.1, fOrder p.2), rest) := by
-      intro p hp
-      obtain ⟨a, b⟩ := p
-      have l0 : lookupBit (packBits [isNa a, isNa b]) 0 = isNa a := by rw [lookupBit_pack _ 0 (by simp)]; rfl
-      have l1 : lookupBit (packBits [isNa a, isNa b]) 1 = isNa b := by rw [lookupBit_pack _ 1 (by simp)]; rfl
-      obtain ⟨ba, ha1, ha2⟩ := side_of_codec k hck a (ht' _ hp).1 (hok'.2 _ hp).1
-      obtain ⟨bb, hb1, hb2⟩ := side_of_codec v hcv b (ht' _ hp).2 (hok'.2 _ hp).2
-      refine ⟨missingOf [a, b] ++ ba ++ bb, by simp only [encEntry, ha1, hb1], fun rest => ?_⟩
-      rw [missingOf_pair]
-      simp only [rdEntry, List.cons_append, List.nil_append, List.append_assoc, l0, l1, ha2 (bb ++ rest), hb2 rest]
-    obtain ⟨body, hb1, hb2⟩ := many_of_entries (encEntry (encode k) (encode v)) rdEntry
-      (fun (p : Value × Value) => (fOrder p.1, fOrder p.2)) es hentry
-    obtain ⟨l, hl1, _, _⟩ := readInt32_write (es.length : Int) (by omega) []
-    refine ⟨l ++ body, by
-      show encDict (encode k) (encode v) es = _
-      unfold encDict; rw [hl1, hb1], fun rest => ?_⟩
-    obtain ⟨l', hl1', _, hl3⟩ := readInt32_write (es.length : Int) (by omega) (body ++ rest)
-    rw [hl1] at hl1'; cases hl1'
-    have hn : ¬ ((es.length : Int) < 0) := by omega
-    have hb2' := hb2 rest
-    simp only [rdEntry] at hb2'
-    simp only [decode, List.append_assoc, hl3, hn, if_false, Int.toNat_natCast, hb2']
-    simp [fOrder, fOrderEntries_eq_map]
-  | .struct fs => fun v hna ht hok => by
-    cases v <;> ill_typed ht hna
-    rename_i xs
-    have ht' : HasTypeFields fs xs := by simpa [HasType] using ht
-    obtain ⟨body, hb1, hb2⟩ := codecFields fs xs ht' (by simpa [EncOK] using hok)
-    have hlen := hasTypeFields_length fs xs ht'
-    refine ⟨missingOf xs ++ body, by simp only [encode, hb1, Option.map_some], fun rest => ?_⟩
-    have hml : (missingOf xs).length = (fs.length + 7) / 8 := by rw [hlen]; exact missingOf_length xs
-    simp only [decode, List.append_assoc]
-    rw [take_append_len _ _ _ hml, drop_append_len _ _ _ hml]
-    rw [hb2 (missingOf xs) 0 rest (fun j hj => by rw [Nat.zero_add]; exact missingAt_missingOf xs j hj)]
-    simp [fOrder]
-  | .tuple ts => fun v hna ht hok => by
-    cases v <;> ill_typed ht hna
-    rename_i xs
-    have ht' : HasTypeTuple ts xs := by simpa [HasType] using ht
-    obtain ⟨body, hb1, hb2⟩ := codecTuple ts xs ht' (by simpa [EncOK] using hok)
-    have hlen := hasTypeTuple_length ts xs ht'
-    refine ⟨missingOf xs ++ body, by simp only [encode, hb1, Option.map_some], fun rest => ?_⟩
-    have hml : (missingOf xs).length = (ts.length + 7) / 8 := by rw [hlen]; exact missingOf_length xs
-    simp only [decode, List.append_assoc]
-    rw [take_append_len _ _ _ hml, drop_append_len _ _ _ hml]
-    rw [hb2 (missingOf xs) 0 rest (fun j hj => by rw [Nat.zero_add]; exact missingAt_missingOf xs j hj)]
-    simp [fOrder]
-  | .ndarray t n => fun v hna ht hok => by
-    cases v <;> ill_typed ht hna
-    rename_i shape data fortran
-    have ht' : shape.length = n ∧ data.length = prod shape ∧ ∀ x ∈ data, x ≠ .na ∧ HasType t x := by
-      simpa [HasType, prod] using ht
-    have hok' : (∀ d ∈ shape, d < 9223372036854775808) ∧ (data = [] ∨ isNumeric t = true) := by simpa [EncOK] using hok
-    obtain ⟨dims, hd1, hd2⟩ := dims_roundtrip shape hok'.1
-    have hall : (shape.map fun (d : Nat) => (d : Int)).all (0 ≤ ·) = true := by simp
-    have hnat : (shape.map fun (d : Nat) => (d : Int)).map Int.toNat = shape := by
-      rw [List.map_map]; exact List.map_id'' (fun d => by simp) shape
-    by_cases hemp : data = []
-    · subst hemp
-      refine ⟨dims, by simp only [encode, encNd, hd1, List.isEmpty_nil, if_true], fun rest => ?_⟩
-      have hp : prod shape = 0 := by simpa using ht'.2.1.symm
-      have hcm : toColMajor shape ([] : List Value) = [] :=
-        List.eq_nil_of_length_eq_zero (by rw [toColMajor_length shape [] (by simp [hp]), hp])
-      have hfc : fromColMajor shape ([] : List Value) = [] := by
-        have := fromColMajor_toColMajor shape ([] : List Value) (by simp [hp])
-        rwa [hcm] at this
-      simp only [decode, ← ht'.1, hd2 rest, hall, if_true, hnat, hp, readMany, Option.map_some, hfc]
-      simp [fOrder, fOrderList]
-    · have hnum : isNumeric t = true := by rcases hok'.2 with h | h; exact absurd h hemp; exact h
-      have hne : data.isEmpty = false := by cases data <;> simp_all
-      obtain ⟨body, hb1, hb2⟩ := many_of_entries (encode t) (decode t) fOrder (toColMajor shape data) (by
-        intro x hx
-        have hm := mem_toColMajor x shape data hx
-        exact (codec t) x (ht'.2.2 x hm).1 (ht'.2.2 x hm).2 (by
-          cases t <;> simp [isNumeric] at hnum <;> cases x <;> simp [EncOK]))
-      refine ⟨dims ++ body, by simp only [encode, encNd, hd1, hne, hnum, hb1, if_true, Bool.false_eq_true, if_false, Option.map_some], fun rest => ?_⟩
-      have hlen := toColMajor_length shape data ht'.2.1
-      have hnumall : ∀ x ∈ toColMajor shape data, HasType t x := fun x hx => (ht'.2.2 x (mem_toColMajor x shape data hx)).2
-      simp only [decode, ← ht'.1, List.append_assoc, hd2 (body ++ rest), hall, if_true, hnat]
-      rw [← hlen, hb2 rest, map_fOrder_numeric t hnum _ hnumall]
-      simp only [Option.map_some, fromColMajor_toColMajor shape data ht'.2.1]
-      simp [fOrder, fOrderList_eq_map, map_fOrder_numeric t hnum data (fun x hx => (ht'.2.2 x hx).2)]
-theorem codecFields : (fs : List (Str × HType)) → ∀ xs, HasTypeFields fs xs → EncOKFields fs xs →
+/-! ## one lemma per type class -/
+
+theorem codec_empty (t : HType) (h : ∀ v, v ≠ .na → ¬ HasType t v) : Codec t :=
+  fun v hna ht _ => absurd ht (h v hna)
+
+theorem codec_void : Codec .void := codec_empty _ (fun v hna ht => by cases v <;> ill_typed ht hna)
+theorem codec_rngState : Codec .rngState := codec_empty _ (fun v hna ht => by cases v <;> ill_typed ht hna)
+theorem codec_stream (t : HType) : Codec (.stream t) := codec_empty _ (fun v hna ht => by cases v <;> ill_typed ht hna)
+
+theorem codec_int32 : Codec .int32 := fun v hna ht hok => by
+  cases v <;> ill_typed ht hna
+  rename_i i
+  have hr : -2147483648 ≤ i ∧ i < 2147483648 := by simpa [HasType] using ht
+  obtain ⟨bs, h1, _, _⟩ := readInt32_write i hr []
+  refine ⟨bs, h1, fun rest => ?_⟩
+  obtain ⟨bs', h1', _, h3'⟩ := readInt32_write i hr rest
+  rw [h1] at h1'; cases h1'
+  show (readInt32 (bs ++ rest)).map _ = _
+  rw [h3']; rfl
+
+theorem codec_int64 : Codec .int64 := fun v hna ht hok => by
+  cases v <;> ill_typed ht hna
+  rename_i i
+  have hr : -9223372036854775808 ≤ i ∧ i < 9223372036854775808 := by simpa [HasType] using ht
+  obtain ⟨bs, h1, _, _⟩ := readInt64_write i hr []
+  refine ⟨bs, h1, fun rest => ?_⟩
+  obtain ⟨bs', h1', _, h3'⟩ := readInt64_write i hr rest
+  rw [h1] at h1'; cases h1'
+  show (readInt64 (bs ++ rest)).map _ = _
+  rw [h3']; rfl
+
+theorem codec_float32 : Codec .float32 := fun v hna ht hok => by
+  cases v <;> ill_typed ht hna
+  rename_i f
+  refine ⟨_, rfl, fun rest => ?_⟩
+  show (readFloat32 (leBytes 4 (f32Bits f) ++ rest)).map _ = _
+  rw [readFloat32_write f (by simpa [HasType] using ht)]; rfl
+
+theorem codec_float64 : Codec .float64 := fun v hna ht hok => by
+  cases v <;> ill_typed ht hna
+  rename_i f
+  refine ⟨_, rfl, fun rest => ?_⟩
+  show (readFloat64 (leBytes 8 (f64Bits f) ++ rest)).map _ = _
+  rw [readFloat64_write f (by simpa [HasType] using ht)]; rfl
+
+theorem codec_bool : Codec .bool := fun v hna ht hok => by
+  cases v <;> ill_typed ht hna
+  rename_i b
+  refine ⟨_, rfl, fun rest => ?_⟩
+  cases b <;> rfl
+
+theorem codec_str : Codec .str := fun v hna ht hok => by
+  cases v <;> ill_typed ht hna
+  rename_i s
+  have hs : ScalarStr s := by simpa [HasType] using ht
+  have hl : 4 * s.length < 2147483648 := by simpa [EncOK] using hok
+  obtain ⟨bs, h1, _⟩ := readStr_write s hs hl []
+  refine ⟨bs, h1, fun rest => ?_⟩
+  obtain ⟨bs', h1', h3'⟩ := readStr_write s hs hl rest
+  rw [h1] at h1'; cases h1'
+  show (readStr (bs ++ rest)).map _ = _
+  rw [h3']; rfl
+
+theorem codec_call : Codec .call := fun v hna ht hok => by
+  cases v <;> ill_typed ht hna
+  rename_i alleles phased
+  have hin : CallPack.InRange ⟨alleles, phased⟩ := by simpa [EncOK] using hok
+  obtain ⟨bs, h1, _⟩ := call_roundtrip alleles phased hin []
+  refine ⟨bs, h1, fun rest => ?_⟩
+  obtain ⟨bs', h1', h3'⟩ := call_roundtrip alleles phased hin rest
+  rw [h1] at h1'; cases h1'
+  exact h3'
+
+theorem codec_locus (rg : Str) : Codec (.locus rg) := fun v hna ht hok => by
+  cases v <;> ill_typed ht hna
+  rename_i contig pos
+  have ht' : ScalarStr contig ∧ -2147483648 ≤ pos ∧ pos < 2147483648 := by simpa [HasType] using ht
+  have hl : 4 * contig.length < 2147483648 := by simpa [EncOK] using hok
+  obtain ⟨a, ha, _⟩ := readStr_write contig ht'.1 hl []
+  obtain ⟨b, hb, _, _⟩ := readInt32_write pos ht'.2 []
+  refine ⟨0 :: (a ++ b), by show encLocus contig pos = _; unfold encLocus; rw [ha, hb], fun rest => ?_⟩
+  obtain ⟨a', ha', hra⟩ := readStr_write contig ht'.1 hl (b ++ rest)
+  rw [ha] at ha'; cases ha'
+  obtain ⟨b', hb', _, hrb⟩ := readInt32_write pos ht'.2 rest
+  rw [hb] at hb'; cases hb'
+  have l0 : lookupBit 0 0 = false := by decide
+  have l1 : lookupBit 0 1 = false := by decide
+  show decLocus (0 :: (a ++ b) ++ rest) = _
+  simp only [decLocus, List.cons_append, l0, l1, List.append_assoc, hra, hrb, Bool.false_eq_true, if_false, Option.map_some]
+  rfl
+
+theorem codec_interval (t : HType) (hc : Codec t) : Codec (.interval t) := fun v hna ht hok => by
+  cases v <;> ill_typed ht hna
+  rename_i s e is ie
+  have ht' : HasType t s ∧ HasType t e := by simpa [HasType] using ht
+  have hok' : EncOK t s ∧ EncOK t e := by simpa [EncOK] using hok
+  obtain ⟨body, hb1, hb2⟩ := flagged_of_codec t hc [s, e] (by
+    intro y hy; simp only [List.mem_cons, List.mem_nil_iff, or_false] at hy
+    rcases hy with rfl | rfl
+    · exact ⟨ht'.1, hok'.1⟩
+    · exact ⟨ht'.2, hok'.2⟩)
+  cases hs : naOrEmpty s (encode t) with
+  | none => simp [concatOpt, hs] at hb1
+  | some a =>
+    cases he : naOrEmpty e (encode t) with
+    | none => simp [concatOpt, hs, he] at hb1
+    | some b =>
+      have hbody : body = a ++ b := by
+        simp only [List.map_cons, List.map_nil, hs, he, concatOpt, Option.map_some, List.append_nil] at hb1
+        cases hb1; rfl
+      refine ⟨missingOf [s, e, .bool is, .bool ie] ++ a ++ b ++ [if is then 1 else 0] ++ [if ie then 1 else 0], by
+        show encInterval (encode t) s e is ie = _
+        unfold encInterval; rw [hs, he], fun rest => ?_⟩
+      have hmb : ∀ j (hj : j < [s, e].length),
+          missingAt [packBits [isNa s, isNa e, false, false]] (0 + j) = some (isNa [s, e][j]) := by
+        intro j hj
+        have hj' : j < 2 := by simpa using hj
+        have h8 : j / 8 = 0 := by omega
+        have hm : j % 8 = j := by omega
+        simp only [missingAt, Nat.zero_add, h8, hm, List.getElem?_cons_zero, Option.map_some]
+        rw [lookupBit_pack _ j (by simp; omega)]
+        match j, hj' with
+        | 0, _ => rfl
+        | 1, _ => rfl
+      have hrf := hb2 [packBits [isNa s, isNa e, false, false]] 0
+        ([if is then 1 else 0] ++ [if ie then 1 else 0] ++ rest) hmb
+      have l2 : lookupBit (packBits [isNa s, isNa e, false, false]) 2 = false := by
+        rw [lookupBit_pack _ 2 (by simp)]; rfl
+      have l3 : lookupBit (packBits [isNa s, isNa e, false, false]) 3 = false := by
+        rw [lookupBit_pack _ 3 (by simp)]; rfl
+      have hmo : missingOf [s, e, Value.bool is, Value.bool ie] = [packBits [isNa s, isNa e, false, false]] := by
+        rw [missingOf_four]; rfl
+      show decInterval (decode t) _ = _
+      rw [hmo, hbody] at *
+      simp only [List.length_cons, List.length_nil, List.append_assoc, List.cons_append, List.nil_append] at hrf ⊢
+      simp only [decInterval, hrf, fOrderList, l2, l3, Bool.false_eq_true, if_false]
+      cases is <;> cases ie <;> simp [readBool, fOrder]
+
+theorem seq_roundtrip (t : HType) (hc : Codec t) (xs : List Value) (ht' : ∀ x ∈ xs, HasType t x)
+    (hok' : xs.length < 2147483648 ∧ ∀ x ∈ xs, EncOK t x) :
+    ∃ bs, encSeq (encode t) xs = some bs ∧ ∀ rest, decSeq (decode t) (bs ++ rest) = some (fOrderList xs, rest) := by
+  obtain ⟨body, hb1, hb2⟩ := flagged_of_codec t hc xs (fun y hy => ⟨ht' y hy, hok'.2 y hy⟩)
+  obtain ⟨l, hl1, _, _⟩ := readInt32_write (xs.length : Int) (by omega) []
+  refine ⟨l ++ missingOf xs ++ body, by unfold encSeq; rw [hl1, hb1], fun rest => ?_⟩
+  obtain ⟨l', hl1', _, hl3⟩ := readInt32_write (xs.length : Int) (by omega) (missingOf xs ++ (body ++ rest))
+  rw [hl1] at hl1'; cases hl1'
+  have hn : ¬ ((xs.length : Int) < 0) := by omega
+  simp only [decSeq, List.append_assoc, hl3, hn, if_false, Int.toNat_natCast]
+  rw [take_append_len _ _ _ (missingOf_length xs), drop_append_len _ _ _ (missingOf_length xs)]
+  exact hb2 (missingOf xs) 0 rest (fun j hj => by rw [Nat.zero_add]; exact missingAt_missingOf xs j hj)
+
+theorem codec_array (t : HType) (hc : Codec t) : Codec (.array t) := fun v hna ht hok => by
+  cases v <;> ill_typed ht hna
+  rename_i xs
+  obtain ⟨bs, h1, h2⟩ := seq_roundtrip t hc xs (by simpa [HasType] using ht) (by simpa [EncOK] using hok)
+  refine ⟨bs, h1, fun rest => ?_⟩
+  show (decSeq (decode t) (bs ++ rest)).map _ = _
+  rw [h2 rest]; rfl
+
+theorem codec_set (t : HType) (hc : Codec t) : Codec (.set t) := fun v hna ht hok => by
+  cases v <;> ill_typed ht hna
+  rename_i xs
+  obtain ⟨bs, h1, h2⟩ := seq_roundtrip t hc xs (by simpa [HasType] using ht) (by simpa [EncOK] using hok)
+  refine ⟨bs, h1, fun rest => ?_⟩
+  show (decSeq (decode t) (bs ++ rest)).map _ = _
+  rw [h2 rest]; rfl
+
+theorem codec_dict (k v : HType) (hck : Codec k) (hcv : Codec v) : Codec (.dict k v) := fun x hna ht hok => by
+  cases x <;> ill_typed ht hna
+  rename_i es
+  have ht' : ∀ p ∈ es, HasType k p.1 ∧ HasType v p.2 := by simpa [HasType] using ht
+  have hok' : es.length < 2147483648 ∧ ∀ p ∈ es, EncOK k p.1 ∧ EncOK v p.2 := by simpa [EncOK] using hok
+  have hentry : ∀ p ∈ es, ∃ b, encEntry (encode k) (encode v) p = some b ∧
+      ∀ rest, decEntry (decode k) (decode v) (b ++ rest) = some ((fOrder p.1, fOrder p.2), rest) := by
+    intro p hp
+    obtain ⟨a, b⟩ := p
+    have l0 : lookupBit (packBits [isNa a, isNa b]) 0 = isNa a := by rw [lookupBit_pack _ 0 (by simp)]; rfl
+    have l1 : lookupBit (packBits [isNa a, isNa b]) 1 = isNa b := by rw [lookupBit_pack _ 1 (by simp)]; rfl
+    obtain ⟨ba, ha1, ha2⟩ := side_of_codec k hck a (ht' _ hp).1 (hok'.2 _ hp).1
+    obtain ⟨bb, hb1, hb2⟩ := side_of_codec v hcv b (ht' _ hp).2 (hok'.2 _ hp).2
+    refine ⟨missingOf [a, b] ++ ba ++ bb, by simp only [encEntry, ha1, hb1], fun rest => ?_⟩
+    rw [missingOf_pair]
+    simp only [decEntry, List.cons_append, List.nil_append, List.append_assoc, l0, l1, ha2 (bb ++ rest), hb2 rest]
+  obtain ⟨body, hb1, hb2⟩ := many_of_entries (encEntry (encode k) (encode v)) (decEntry (decode k) (decode v))
+    (fun (p : Value × Value) => (fOrder p.1, fOrder p.2)) es hentry
+  obtain ⟨l, hl1, _, _⟩ := readInt32_write (es.length : Int) (by omega) []
+  refine ⟨l ++ body, by
+    show encDict (encode k) (encode v) es = _
+    unfold encDict; rw [hl1, hb1], fun rest => ?_⟩
+  obtain ⟨l', hl1', _, hl3⟩ := readInt32_write (es.length : Int) (by omega) (body ++ rest)
+  rw [hl1] at hl1'; cases hl1'
+  have hn : ¬ ((es.length : Int) < 0) := by omega
+  show decDict (decode k) (decode v) _ = _
+  simp only [decDict, List.append_assoc, hl3, hn, if_false, Int.toNat_natCast, hb2 rest]
+  simp [fOrder, fOrderEntries_eq_map]
+
+theorem codec_nd (t : HType) (n : Nat) (hc : Codec t) : Codec (.ndarray t n) := fun v hna ht hok => by
+  cases v <;> ill_typed ht hna
+  rename_i shape data fortran
+  have ht' : shape.length = n ∧ data.length = prod shape ∧ ∀ x ∈ data, x ≠ .na ∧ HasType t x := by
+    simpa [HasType, prod] using ht
+  have hok' : (∀ d ∈ shape, d < 9223372036854775808) ∧ (data = [] ∨ isNumeric t = true) := by simpa [EncOK] using hok
+  obtain ⟨dims, hd1, hd2⟩ := dims_roundtrip shape hok'.1
+  have hall : (shape.map fun (d : Nat) => (d : Int)).all (0 ≤ ·) = true := by simp
+  have hnat : (shape.map fun (d : Nat) => (d : Int)).map Int.toNat = shape := by
+    rw [List.map_map]; exact List.map_id'' (fun d => by simp) shape
+  by_cases hemp : data = []
+  · subst hemp
+    refine ⟨dims, by
+      show encNd (isNumeric t) (encode t) shape [] = _
+      simp only [encNd, hd1, List.isEmpty_nil, if_true], fun rest => ?_⟩
+    have hp : prod shape = 0 := by simpa using ht'.2.1.symm
+    have hcm : toColMajor shape ([] : List Value) = [] :=
+      List.eq_nil_of_length_eq_zero (by rw [toColMajor_length shape [] (by simp [hp]), hp])
+    have hfc : fromColMajor shape ([] : List Value) = [] := by
+      have := fromColMajor_toColMajor shape ([] : List Value) (by simp [hp])
+      rwa [hcm] at this
+    show decNd (decode t) n _ = _
+    simp only [decNd, ← ht'.1, hd2 rest, hall, if_true, hnat, hp, readMany, Option.map_some, hfc]
+    simp [fOrder, fOrderList]
+  · have hnum : isNumeric t = true := by rcases hok'.2 with h | h; exact absurd h hemp; exact h
+    have hne : data.isEmpty = false := by cases data <;> simp_all
+    obtain ⟨body, hb1, hb2⟩ := many_of_entries (encode t) (decode t) fOrder (toColMajor shape data) (by
+      intro x hx
+      have hm := mem_toColMajor x shape data hx
+      exact hc x (ht'.2.2 x hm).1 (ht'.2.2 x hm).2 (by
+        cases t <;> simp [isNumeric] at hnum <;> cases x <;> simp [EncOK]))
+    refine ⟨dims ++ body, by
+      show encNd (isNumeric t) (encode t) shape data = _
+      simp only [encNd, hd1, hne, hnum, hb1, if_true, Bool.false_eq_true, if_false, Option.map_some], fun rest => ?_⟩
+    have hlen := toColMajor_length shape data ht'.2.1
+    have hnumall : ∀ x ∈ toColMajor shape data, HasType t x := fun x hx => (ht'.2.2 x (mem_toColMajor x shape data hx)).2
+    show decNd (decode t) n _ = _
+    simp only [decNd, ← ht'.1, List.append_assoc, hd2 (body ++ rest), hall, if_true, hnat]
+    rw [← hlen, hb2 rest, map_fOrder_numeric t hnum _ hnumall]
+    simp only [Option.map_some, fromColMajor_toColMajor shape data ht'.2.1]
+    simp [fOrder, fOrderList_eq_map, map_fOrder_numeric t hnum data (fun x hx => (ht'.2.2 x hx).2)]
+
+/-- the statement for the fields of a struct: their bytes after the missing-bit bytes `mb`, read from position `i` -/
+def FieldsCodec (fs : List (Str × HType)) : Prop :=
+  ∀ xs, HasTypeFields fs xs → EncOKFields fs xs →
     ∃ body, encodeFields fs xs = some body ∧
       ∀ mb i rest, (∀ j (hj : j < xs.length), missingAt mb (i + j) = some (isNa xs[j])) →
         decodeFields fs mb i (body ++ rest) = some (fOrderList xs, rest)
-  | [], xs, ht, _ => by
-    cases xs with
-    | nil => exact ⟨[], rfl, fun _ _ _ _ => rfl⟩
-    | cons x xs => simp [HasTypeFields] at ht
-  | (n, t) :: fs, xs, ht, hok => by
-    cases xs with
-    | nil => simp [HasTypeFields] at ht
-    | cons y ys =>
-      have ht' : HasType t y ∧ HasTypeFields fs ys := by simpa [HasTypeFields] using ht
-      have hok' : EncOK t y ∧ EncOKFields fs ys := by simpa [EncOKFields] using hok
-      obtain ⟨body, hb1, hb2⟩ := codecFields fs ys ht'.2 hok'.2
-      have shift : ∀ mb i, (∀ j (hj : j < (y :: ys).length), missingAt mb (i + j) = some (isNa (y :: ys)[j])) →
-          ∀ j (hj : j < ys.length), missingAt mb (i + 1 + j) = some (isNa ys[j]) := by
-        intro mb i hm j hj
-        have := hm (j + 1) (by simp; omega)
-        simpa [Nat.add_assoc, Nat.add_comm 1 j] using this
-      by_cases hna : y = .na
-      · subst hna
-        have hn : naOrEmpty Value.na (encode t) = some [] := rfl
-        refine ⟨body, by simp only [encodeFields, hn, hb1]; rfl, ?_⟩
-        intro mb i rest hm
-        have h0 := hm 0 (by simp)
-        simp only [Nat.add_zero, List.getElem_cons_zero, isNa] at h0
-        simp only [decodeFields, h0, hb2 mb (i + 1) rest (shift mb i hm), fOrderList, fOrder]
-        rfl
-      · obtain ⟨b, he, hd⟩ := (codec t) y hna ht'.1 hok'.1
-        refine ⟨b ++ body, by simp only [encodeFields, naOrEmpty_of_ne y hna, he, hb1], ?_⟩
-        intro mb i rest hm
-        have h0 := hm 0 (by simp)
-        simp only [Nat.add_zero, List.getElem_cons_zero, isNa_false_of_ne y hna] at h0
-        simp only [decodeFields, h0, List.append_assoc, hd (body ++ rest), hb2 mb (i + 1) rest (shift mb i hm), fOrderList]
-        rfl
-theorem codecTuple : (ts : List HType) → ∀ xs, HasTypeTuple ts xs → EncOKTuple ts xs →
+
+def TupleCodec (ts : List HType) : Prop :=
+  ∀ xs, HasTypeTuple ts xs → EncOKTuple ts xs →
     ∃ body, encodeTuple ts xs = some body ∧
       ∀ mb i rest, (∀ j (hj : j < xs.length), missingAt mb (i + j) = some (isNa xs[j])) →
         decodeTuple ts mb i (body ++ rest) = some (fOrderList xs, rest)
-  | [], xs, ht, _ => by
-    cases xs with
-    | nil => exact ⟨[], rfl, fun _ _ _ _ => rfl⟩
-    | cons x xs => simp [HasTypeTuple] at ht
-  | t :: ts, xs, ht, hok => by
-    cases xs with
-    | nil => simp [HasTypeTuple] at ht
-    | cons y ys =>
-      have ht' : HasType t y ∧ HasTypeTuple ts ys := by simpa [HasTypeTuple] using ht
-      have hok' : EncOK t y ∧ EncOKTuple ts ys := by simpa [EncOKTuple] using hok
-      obtain ⟨body, hb1, hb2⟩ := codecTuple ts ys ht'.2 hok'.2
-      have shift : ∀ mb i, (∀ j (hj : j < (y :: ys).length), missingAt mb (i + j) = some (isNa (y :: ys)[j])) →
-          ∀ j (hj : j < ys.length), missingAt mb (i + 1 + j) = some (isNa ys[j]) := by
-        intro mb i hm j hj
-        have := hm (j + 1) (by simp; omega)
-        simpa [Nat.add_assoc, Nat.add_comm 1 j] using this
-      by_cases hna : y = .na
-      · subst hna
-        have hn : naOrEmpty Value.na (encode t) = some [] := rfl
-        refine ⟨body, by simp only [encodeTuple, hn, hb1]; rfl, ?_⟩
-        intro mb i rest hm
-        have h0 := hm 0 (by simp)
-        simp only [Nat.add_zero, List.getElem_cons_zero, isNa] at h0
-        simp only [decodeTuple, h0, hb2 mb (i + 1) rest (shift mb i hm), fOrderList, fOrder]
-        rfl
-      · obtain ⟨b, he, hd⟩ := (codec t) y hna ht'.1 hok'.1
-        refine ⟨b ++ body, by simp only [encodeTuple, naOrEmpty_of_ne y hna, he, hb1], ?_⟩
-        intro mb i rest hm
-        have h0 := hm 0 (by simp)
-        simp only [Nat.add_zero, List.getElem_cons_zero, isNa_false_of_ne y hna] at h0
-        simp only [decodeTuple, h0, List.append_assoc, hd (body ++ rest), hb2 mb (i + 1) rest (shift mb i hm), fOrderList]
-        rfl
+
+theorem shift_flags (y : Value) (ys : List Value) (mb : Bytes) (i : Nat)
+    (hm : ∀ j (hj : j < (y :: ys).length), missingAt mb (i + j) = some (isNa (y :: ys)[j])) :
+    ∀ j (hj : j < ys.length), missingAt mb (i + 1 + j) = some (isNa ys[j]) := by
+  intro j hj
+  have := hm (j + 1) (by simp; omega)
+  simpa [Nat.add_assoc, Nat.add_comm 1 j] using this
+
+theorem fieldsCodec_nil : FieldsCodec [] := fun xs ht _ => by
+  cases xs with
+  | nil => exact ⟨[], rfl, fun _ _ _ _ => rfl⟩
+  | cons x xs => simp [HasTypeFields] at ht
+
+theorem fieldsCodec_cons (n : Str) (t : HType) (fs : List (Str × HType)) (hc : Codec t) (hf : FieldsCodec fs) :
+    FieldsCodec ((n, t) :: fs) := fun xs ht hok => by
+  cases xs with
+  | nil => simp [HasTypeFields] at ht
+  | cons y ys =>
+    have ht' : HasType t y ∧ HasTypeFields fs ys := by simpa [HasTypeFields] using ht
+    have hok' : EncOK t y ∧ EncOKFields fs ys := by simpa [EncOKFields] using hok
+    obtain ⟨body, hb1, hb2⟩ := hf ys ht'.2 hok'.2
+    obtain ⟨b, he, hd⟩ := side_of_codec t hc y ht'.1 hok'.1
+    refine ⟨b ++ body, by simp only [encodeFields, he, hb1], ?_⟩
+    intro mb i rest hm
+    have h0 := hm 0 (by simp)
+    simp only [Nat.add_zero, List.getElem_cons_zero] at h0
+    have hd' := hd (body ++ rest)
+    by_cases hna : y = .na
+    · subst hna
+      simp only [isNa, if_true] at hd' h0
+      have hbe : b = [] := by
+        have : naOrEmpty Value.na (encode t) = some [] := rfl
+        rw [this] at he; cases he; rfl
+      subst hbe
+      simp only [decodeFields, h0, List.nil_append, hb2 mb (i + 1) rest (shift_flags _ ys mb i hm), fOrderList, fOrder]
+      rfl
+    · simp only [isNa_false_of_ne y hna, Bool.false_eq_true, if_false] at hd' h0
+      simp only [decodeFields, h0, List.append_assoc, hd', hb2 mb (i + 1) rest (shift_flags _ ys mb i hm), fOrderList]
+      rfl
+
+theorem tupleCodec_nil : TupleCodec [] := fun xs ht _ => by
+  cases xs with
+  | nil => exact ⟨[], rfl, fun _ _ _ _ => rfl⟩
+  | cons x xs => simp [HasTypeTuple] at ht
+
+theorem tupleCodec_cons (t : HType) (ts : List HType) (hc : Codec t) (hf : TupleCodec ts) :
+    TupleCodec (t :: ts) := fun xs ht hok => by
+  cases xs with
+  | nil => simp [HasTypeTuple] at ht
+  | cons y ys =>
+    have ht' : HasType t y ∧ HasTypeTuple ts ys := by simpa [HasTypeTuple] using ht
+    have hok' : EncOK t y ∧ EncOKTuple ts ys := by simpa [EncOKTuple] using hok
+    obtain ⟨body, hb1, hb2⟩ := hf ys ht'.2 hok'.2
+    obtain ⟨b, he, hd⟩ := side_of_codec t hc y ht'.1 hok'.1
+    refine ⟨b ++ body, by simp only [encodeTuple, he, hb1], ?_⟩
+    intro mb i rest hm
+    have h0 := hm 0 (by simp)
+    simp only [Nat.add_zero, List.getElem_cons_zero] at h0
+    have hd' := hd (body ++ rest)
+    by_cases hna : y = .na
+    · subst hna
+      simp only [isNa, if_true] at hd' h0
+      have hbe : b = [] := by
+        have : naOrEmpty Value.na (encode t) = some [] := rfl
+        rw [this] at he; cases he; rfl
+      subst hbe
+      simp only [decodeTuple, h0, List.nil_append, hb2 mb (i + 1) rest (shift_flags _ ys mb i hm), fOrderList, fOrder]
+      rfl
+    · simp only [isNa_false_of_ne y hna, Bool.false_eq_true, if_false] at hd' h0
+      simp only [decodeTuple, h0, List.append_assoc, hd', hb2 mb (i + 1) rest (shift_flags _ ys mb i hm), fOrderList]
+      rfl
+
+theorem codec_struct (fs : List (Str × HType)) (hf : FieldsCodec fs) : Codec (.struct fs) := fun v hna ht hok => by
+  cases v <;> ill_typed ht hna
+  rename_i xs
+  have ht' : HasTypeFields fs xs := by simpa [HasType] using ht
+  obtain ⟨body, hb1, hb2⟩ := hf xs ht' (by simpa [EncOK] using hok)
+  have hlen := hasTypeFields_length fs xs ht'
+  refine ⟨missingOf xs ++ body, by show (encodeFields fs xs).map _ = _; rw [hb1]; rfl, fun rest => ?_⟩
+  have hml : (missingOf xs).length = (fs.length + 7) / 8 := by rw [hlen]; exact missingOf_length xs
+  show (decodeFields fs ((missingOf xs ++ body ++ rest).take ((fs.length + 7) / 8)) 0
+    ((missingOf xs ++ body ++ rest).drop ((fs.length + 7) / 8))).map _ = _
+  rw [List.append_assoc, take_append_len _ _ _ hml, drop_append_len _ _ _ hml]
+  rw [hb2 (missingOf xs) 0 rest (fun j hj => by rw [Nat.zero_add]; exact missingAt_missingOf xs j hj)]
+  rfl
+
+theorem codec_tuple (ts : List HType) (hf : TupleCodec ts) : Codec (.tuple ts) := fun v hna ht hok => by
+  cases v <;> ill_typed ht hna
+  rename_i xs
+  have ht' : HasTypeTuple ts xs := by simpa [HasType] using ht
+  obtain ⟨body, hb1, hb2⟩ := hf xs ht' (by simpa [EncOK] using hok)
+  have hlen := hasTypeTuple_length ts xs ht'
+  refine ⟨missingOf xs ++ body, by show (encodeTuple ts xs).map _ = _; rw [hb1]; rfl, fun rest => ?_⟩
+  have hml : (missingOf xs).length = (ts.length + 7) / 8 := by rw [hlen]; exact missingOf_length xs
+  show (decodeTuple ts ((missingOf xs ++ body ++ rest).take ((ts.length + 7) / 8)) 0
+    ((missingOf xs ++ body ++ rest).drop ((ts.length + 7) / 8))).map _ = _
+  rw [List.append_assoc, take_append_len _ _ _ hml, drop_append_len _ _ _ hml]
+  rw [hb2 (missingOf xs) 0 rest (fun j hj => by rw [Nat.zero_add]; exact missingAt_missingOf xs j hj)]
+  rfl
+
+/-! ## every type -/
+
+mutual
+theorem codec : (t : HType) → Codec t
+  | .void => codec_void
+  | .rngState => codec_rngState
+  | .stream t => codec_stream t
+  | .int32 => codec_int32
+  | .int64 => codec_int64
+  | .float32 => codec_float32
+  | .float64 => codec_float64
+  | .bool => codec_bool
+  | .str => codec_str
+  | .call => codec_call
+  | .locus rg => codec_locus rg
+  | .interval t => codec_interval t (codec t)
+  | .array t => codec_array t (codec t)
+  | .set t => codec_set t (codec t)
+  | .dict k v => codec_dict k v (codec k) (codec v)
+  | .struct fs => codec_struct fs (codecFields fs)
+  | .tuple ts => codec_tuple ts (codecTuple ts)
+  | .ndarray t n => codec_nd t n (codec t)
+theorem codecFields : (fs : List (Str × HType)) → FieldsCodec fs
+  | [] => fieldsCodec_nil
+  | (n, t) :: fs => fieldsCodec_cons n t fs (codec t) (codecFields fs)
+theorem codecTuple : (ts : List HType) → TupleCodec ts
+  | [] => tupleCodec_nil
+  | t :: ts => tupleCodec_cons t ts (codec t) (codecTuple ts)
 end
 
 end HailVerif.ValueEnc
